@@ -76,6 +76,50 @@ def k_rules(exists: bool, isdir: bool, islink: bool, sticky: bool) -> str:
     return rt.ok()
 
 
+class _St(object):
+    def __init__(self, mode):
+        self.st_mode = mode
+
+
+class _StatOs(object):
+    """os stand-in whose stat() answers a directory with the given permission bits"""
+
+    def __init__(self, mode, real_os):
+        self._mode = mode
+        self.path = real_os.path
+
+    def stat(self, path, *a, **k):
+        return _St(0o040000 | self._mode)
+
+    lstat = stat
+
+
+def k_sticky(mode: int) -> str:
+    """
+    pre: 0 <= mode <= 4095
+    post: _ == ''
+    """
+    rt.begin()
+    import trashcli.fs as tfs
+    import trashcli.put.fs.real_fs as rfs
+    want = (mode // 512) % 2 == 1  # the S_ISVTX bit, nothing else
+    saved = (tfs.os, rfs.os)
+    fake = _StatOs(mode, saved[0])
+    tfs.os = fake
+    rfs.os = fake
+    try:
+        got_readers = tfs.RealHasStickyBit().has_sticky_bit('/v/.Trash')
+        got_dir = tfs.RealIsStickyDir.has_sticky_bit(tfs.RealIsStickyDir(), '/v/.Trash')
+        got_put = rfs.RealFs.has_sticky_bit(rfs.RealFs.__new__(rfs.RealFs), '/v/.Trash')
+    finally:
+        tfs.os, rfs.os = saved
+    if bool(got_readers) != want or bool(got_dir) != want:
+        return rt.fail('C08:sticky-test:readers', 'permission bits %o: the readers consider it %ssticky' % (mode, '' if got_readers else 'not '))
+    if bool(got_put) != want:
+        return rt.fail('C08:sticky-test:put', 'permission bits %o: trash-put considers it %ssticky' % (mode, '' if got_put else 'not '))
+    return rt.ok()
+
+
 ALT = ['absent', 'dir-populated', 'file']
 CMDS = ['put', 'put-dir', 'list', 'restore', 'restore-path', 'empty', 'empty-days', 'empty-dry', 'rm-star', 'rm-exact', 'list-trash-dirs']
 
@@ -123,7 +167,7 @@ def _case(top, alt, cmd):
                     return rt.fail('C08:insecure-dir-read:' + label, 'stdout mentions %r: %r' % (mark, r['out'][-300:]))
             if c == 'list-trash-dirs' and '/v/.Trash/1000' in [ln.strip() for ln in K.lines(r['out'])]:
                 return rt.fail('C08:insecure-dir-listed-as-usable:' + label, r['out'])
-            if c == 'list' and K.TOP_STATES[top] in ('nonsticky', 'link-sticky', 'link-nonsticky') and '/v/.Trash/1000' not in r['err']:
+            if c == 'list' and K.TOP_STATES[top] in ('nonsticky', 'link-sticky', 'link-nonsticky', 'setgid-nonsticky', 'setuid-nonsticky') and '/v/.Trash/1000' not in r['err']:
                 return rt.fail('C08:no-skip-diagnostic:' + label, 'trash-list stderr: %r' % (r['err'],))
         if uid_dir is not None and sec:
             if c == 'list' and 'secret' not in r['out']:
@@ -219,10 +263,10 @@ def w_midrun(k: int, action: int, interactive: bool) -> str:
 
 def w_main(top: int, alt: int, cmd: int) -> str:
     """
-    pre: 0 <= top < 6 and 0 <= alt < 3 and 0 <= cmd < 11
+    pre: 0 <= top < 9 and 0 <= alt < 3 and 0 <= cmd < 11
     post: _ == ''
     """
-    return _case(rt.sel(top, 6), rt.sel(alt, 3), rt.sel(cmd, 11))
+    return _case(rt.sel(top, 9), rt.sel(alt, 3), rt.sel(cmd, 11))
 
 
 def obligations(tier):
@@ -230,9 +274,12 @@ def obligations(tier):
         CH('K_rules_reader_and_writer', MOD, 'k_rules', timeout=120, engine='K', regime='traced',
            encodes=['TopTrashDirRules.valid_to_be_read', 'SecurityCheck.check_trash_dir_is_secure'],
            bounds='all answer combinations of a symbolic reader (exists, isdir, islink, sticky)', stubs=['file-system reader -> 4 symbolic booleans']),
+        CH('K_sticky_test_all_modes', MOD, 'k_sticky', timeout=120, engine='K', regime='traced',
+           encodes=['trashcli.fs.RealHasStickyBit.has_sticky_bit', 'RealFs.has_sticky_bit'], stubs=['os.stat -> symbolic permission bits'],
+           bounds='every permission value 0..07777'),
         CH('W_state_x_alt_x_cmd', MOD, 'w_main', timeout=600, engine='W', regime='selector',
            encodes=K.PUT_FUNCS + K.LIST_FUNCS + K.RESTORE_FUNCS + K.EMPTY_FUNCS + K.RM_FUNCS, stubs=K.STUBS,
-           bounds='6 .Trash states x 3 .Trash-uid states x 11 command/argument combinations (all five commands)'),
+           bounds='9 .Trash states (incl. setgid/setuid without sticky) x 3 .Trash-uid states x 11 command/argument combinations (all five commands)'),
         CH('W_put_rechecks_per_argument', MOD, 'w_midrun', timeout=900, engine='W', regime='selector', encodes=K.PUT_FUNCS, stubs=K.STUBS,
            bounds='trash-put a b c (with/without -i); .Trash turns insecure (sticky bit dropped | replaced by a symlink) before system call k, k in 0..199 '
                   '(runs are shorter: checked); an argument whose processing starts after that instant must not land in .Trash/$uid'),
